@@ -89,6 +89,8 @@ def _tr(t):
             e = z3.Or(a[0], a[1])
         elif op == "iff":
             e = a[0] == a[1]
+        elif op == "uf" and n.args[0] == "floor" and len(a) == 1:
+            e = z3.ToReal(z3.ToInt(a[0]))                  # interpreted: floor of a real
         elif op == "uf":
             name = n.args[0]
             key = (name, len(a), n.sort)
@@ -225,7 +227,9 @@ def to_smtlib(assertions, logic="ALL"):
             continue
         m = {"add": "+", "sub": "-", "mul": "*", "div": "/", "neg": "-", "ite": "ite", "lt": "<", "le": "<=",
              "eq": "=", "not": "not", "and": "and", "or": "or", "iff": "="}
-        if op == "uf":
+        if op == "uf" and n.args[0] == "floor" and len(a) == 1:
+            body = "(to_real (to_int %s))" % a[0]
+        elif op == "uf":
             fn = "|%s|" % n.args[0]
             ufs[fn] = (len(a), "Real" if n.sort == "R" else "Bool")
             body = "(%s %s)" % (fn, " ".join(a))
